@@ -1038,3 +1038,63 @@ def _c10_live_sign_flips(rng, tier):
 
 oracle("C10", "live_problem_mirrored_geometry")(_c10_live_sign_flips)
 oracle("C03", "live_structure_mirrored_geometry")(_c10_live_sign_flips)
+
+
+@oracle("C07", "mirror_symmetric_structure_with_inertial_loads")
+def c07_struct_alone_symmetry(rng, tier):
+    """a mirror-symmetric full-span structure (tube or wingbox) under mirror-symmetric applied loads, with weight relief,
+    distributed fuel (wingbox) and a mirror pair of point masses / engines in random combinations: the loads the FEM receives
+    and the displacements are mirror symmetric"""
+    import openmdao.api as om
+    from openaerostruct.structures.struct_groups import SpatialBeamAlone
+    fem = str(rng.choice(["tube", "wingbox"]))
+    s = _as_surface(rng, tier, sym=True, fem=fem, struct_weight_relief=bool(rng.integers(2)))
+    for k in ("thickness_cp", "spar_thickness_cp", "skin_thickness_cp", "twist_cp", "t_over_c_cp"):
+        if k in s:
+            s[k] = np.full(np.asarray(s[k]).shape, float(np.asarray(s[k]).ravel()[0]))     # constant distributions
+    f, sl = _full_surface(s)
+    for k in ("spar_thickness_cp", "skin_thickness_cp", "t_over_c_cp"):
+        if k in f:
+            cp = np.asarray(f[k]); f[k] = np.concatenate([cp, cp[-2::-1]])
+    fuel = bool(fem == "wingbox" and rng.integers(2)); f["distributed_fuel_weight"] = fuel
+    pm = bool(rng.integers(2))
+    if pm:
+        f["n_point_masses"] = 2
+    if not (f["struct_weight_relief"] or fuel or pm):
+        f["struct_weight_relief"] = True
+    ny = f["mesh"].shape[1]; nh = s["mesh"].shape[1]
+    mir6 = np.array([1, -1, 1, -1, 1, -1.0])
+    lh = rng.normal(size=(nh, 6)) * 1e4
+    lh[-1, [1, 3, 5]] = 0.0                              # the centre node lies on the plane
+    loads = np.concatenate([lh, (lh[:-1] * mir6)[::-1]])
+    yloc = float(rng.uniform(0.5, 0.8 * np.max(np.abs(f["mesh"][0, :, 1]))))
+    prob = om.Problem(reports=False)
+    ivc = om.IndepVarComp()
+    ivc.add_output("loads", val=loads, units="N"); ivc.add_output("load_factor", val=float(rng.choice([1.0, 2.5])))
+    if pm:
+        ivc.add_output("point_masses", val=np.array([[800.0], [800.0]]), units="kg")
+        ivc.add_output("point_mass_locations", val=np.array([[1.0, -yloc, -0.4], [1.0, yloc, -0.4]]), units="m")
+        ivc.add_output("engine_thrusts", val=np.array([[2e4], [2e4]]), units="N")
+    if fuel:
+        ivc.add_output("fuel_mass", val=float(rng.uniform(500, 5000)), units="kg")
+    prob.model.add_subsystem("ivc", ivc, promotes=["*"])
+    prob.model.add_subsystem("wing", SpatialBeamAlone(surface=f))
+    prob.model.connect("loads", "wing.loads"); prob.model.connect("load_factor", "wing.load_factor")
+    if pm:
+        for k in ("point_masses", "point_mass_locations", "engine_thrusts"):
+            prob.model.connect(k, "wing." + k)
+    if fuel:
+        prob.model.connect("fuel_mass", "wing.struct_states.fuel_mass")
+        prob.model.connect("wing.struct_setup.fuel_vols", "wing.struct_states.fuel_vols")
+    with quiet():
+        prob.setup(); prob.run_model()
+    tot = np.array(prob.get_val("wing.struct_states.total_loads")); disp = np.array(prob.get_val("wing.disp"))
+    out = []
+    case = dict(fem_model_type=fem, weight_relief=f["struct_weight_relief"], distributed_fuel=fuel, point_masses=pm, ny=ny)
+    if relerr(tot[::-1] * mir6, tot) > 1e-9:
+        k = int(np.argmax(np.max(np.abs(tot[::-1] * mir6 - tot), axis=1)))
+        out.append(_fail("the loads received by the FEM of a mirror-symmetric full-span structure are not mirror symmetric",
+                         (tot[::-1] * mir6)[k], tot[k], node=k, **case))
+    if relerr(disp[::-1] * mir6, disp) > 1e-7:
+        out.append(_fail("displacements of a mirror-symmetric full-span structure are not mirror symmetric", (disp[::-1] * mir6)[0], disp[0], **case))
+    return out
